@@ -37,6 +37,8 @@ TECHNIQUE = "boundary enumeration + Hypothesis with metamorphic oracle (extensio
 TRUNC = ["des_crypt", "crypt16", "bcrypt", "django_bcrypt", "ldap_des_crypt", "ldap_bcrypt", "django_des_crypt", "lmhash", "cisco_pix", "cisco_asa"]
 HAS_POLICY = [n for n in TRUNC if not n.startswith("cisco")]
 WIDTH_CHARS = {1: "a", 2: "é", 3: "€", 4: "\U0001F600"}
+#: characters whose upper-casing changes the encoded length (lmhash digests the upper-cased bytes): ß -> SS, ɐ -> Ɐ (3 bytes in utf-8)
+UPPER_GROWS = {"ß": 2, "ɐ": 3, "ŉ": 3}
 
 
 def _enc(name, ctx):
@@ -265,6 +267,11 @@ def boundary_passwords(limit, span=(-2, 6)):
         # all-wide passwords (character count below the limit, byte count above)
         for cnt in range(max(1, limit // w - 1), limit // w + 3):
             out.append((w, -1, ch * cnt))
+    if limit == 14:  # lmhash: upper-casing may lengthen the password
+        for ch, w in UPPER_GROWS.items():
+            for cnt in range(1, limit + 2):
+                for pad in (0, 1, limit - cnt if limit > cnt else 0):
+                    out.append((w, -2, "a" * pad + ch * cnt))
     return out
 
 
